@@ -75,7 +75,7 @@ int write_hex(Memory *memory, FILE *out)
 {
   uint8_t data[16];
   int len;
-  uint32_t n;
+  uint64_t n;
   uint32_t address = 0,segment = 0;
 
   len = -1;
